@@ -150,8 +150,18 @@ fn fusion(t: &mut Tape, ctx: &mut Ctx, al: gen::Alpha) -> CheckResult {
     let lsb = LOH::spider(sv::ff(b.s.clone(), nb), sv::ff(b.t.clone(), nb), obs(&b.nodes))
         .ok_or_else(|| ctx.fail("lax-spider", "lax spider returned None on legs that land in the node list"))?;
     let lfused = open_hypergraphs::category::Arrow::compose(&ls, &lsb).ok_or_else(|| ctx.fail("lax-spider-fusion", "lax composition of spiders undefined although types match"))?;
-    let lf = wf(ctx, "spider-wf", sv::from_strict(&lfused.to_strict()), "strict(lax spider1 ; lax spider2)")?;
+    let lf = wf(ctx, "spider-wf", sv::from_strict(&lfused.clone().to_strict()), "strict(lax spider1 ; lax spider2)")?;
     require_iso(ctx, "lax-spider-fusion", &lf, &want, "lax spider fusion")?;
+    // the fusion carried out in place, by `quotient` and by its deprecated alias
+    #[allow(deprecated)]
+    for (name, which) in [("quotient", 0), ("quotient_witness", 1)] {
+        let mut glued = lfused.clone();
+        let r = if which == 0 { glued.quotient() } else { glued.quotient_witness() };
+        ensure!(ctx, r.is_ok(), "lax-spider-fusion", "{name}() failed on a composite of two spiders with matching boundary labels");
+        let g = wf(ctx, "spider-wf", from_lax(&glued), "fused lax spider")?;
+        ensure!(ctx, g.q.is_empty(), "lax-spider-fusion", "{name}() left pending unifications");
+        require_iso(ctx, "lax-spider-fusion", &g.d, &want, &format!("lax spider fusion glued in place by {name}()"))?;
+    }
     ensure!(ctx, lf.edges.is_empty(), "lax-spider-fusion", "fused lax spider is not discrete");
     // identities, symmetries and half spiders are spiders
     ctx.sub("identity-twist-are-spiders");
